@@ -13,6 +13,12 @@ interleaving of writers and readers and for any number of transactions, the page
 `max numPages₀ (K·(n+2)+1)` when requests are at most `K` pages and at most `n` pages are non-free (live
 or pending) after each event (`plateau_along_every_history`).  No page below the mark is ever lost
 (`no_page_is_lost`, `each_page_in_exactly_one_set`).
+Across close and reopen (`Sys.reopen`: no transaction survives, the persisted list `FL.pages` is read back by
+`FL.init` and everything on it is free, the header is unchanged; `Sys.runSegs`: a history of segments
+separated by reopens): a reopen keeps the accounting invariant (`reopen_keeps_invariant`), makes every page
+that was free or pending at close free and leaves nothing pending (`reopen_frees_everything`), loses no page
+(`no_page_is_lost_across_reopen`), and the plateau bound holds along every history with any number of
+reopens (`plateau_across_reopens`; `invariant_always_across_reopens`).
 Tie: exact comparison of the real in-memory free list with the model's after every commit, on long
 overwrite / delete / bucket-delete workloads with and without reopen and with a reader held.
 -/
@@ -20,6 +26,7 @@ import Jamm.Proofs.FreelistLemmas
 import Jamm.Proofs.PlateauLemmas
 import Jamm.Proofs.FreelistCover
 import Jamm.Proofs.PlateauHistory
+import Jamm.Proofs.ReopenLemmas
 set_option linter.unusedSectionVars false
 
 namespace Jamm.Props.C10
@@ -120,5 +127,65 @@ theorem each_page_in_exactly_one_set (s : Sys) (hi : s.invB = true) (hcov : s.Co
 
 example : ({ cur := { txId := 0, reach := [2, 3] }, shared := {}, readers := [], numPages := 4 } : Sys).Covers :=
   covers_init
+
+/-! ### across close and reopen -/
+
+/-- close and reopen preserves the accounting invariant (the reopened free set is ascending whatever the
+order of the persisted list, disjoint from the reachable pages and in range; nothing is pending, no reader
+is open) -/
+theorem reopen_keeps_invariant (s : Sys) (hi : s.invB = true) : (s.reopen).invB = true :=
+  reopen_inv s hi
+
+/-- … along any history with reopens -/
+theorem invariant_always_across_reopens (s : Sys) (segs : List (List Ev)) (s' : Sys) (hi : s.invB = true)
+    (h : s.runSegs segs = some s') : s'.invB = true :=
+  inv_runSegs s segs s' hi h
+
+/-- after a reopen nothing is pending and exactly the pages that were free or pending at close are free: a page
+freed before the close (even one a reader of the closed process still pinned) is available to the first
+writer after the open -/
+theorem reopen_frees_everything (s : Sys) (hi : s.invB = true) :
+    (s.reopen).shared.pending = [] ∧
+    ∀ p, p ∈ (s.reopen).shared.free ↔ (p ∈ s.shared.free ∨ p ∈ s.shared.pendingPages) :=
+  Jamm.reopen_frees_everything s hi
+
+/-- no page is lost along any history with reopens: every page below the high-water mark stays reachable,
+free or pending through every event and every close/reopen -/
+theorem no_page_is_lost_across_reopen (s : Sys) (segs : List (List Ev)) (s' : Sys) (hi : s.invB = true)
+    (hcov : s.Covers) (h : s.runSegs segs = some s') : s'.Covers :=
+  covers_runSegs s segs s' hi hcov h
+
+/-- the plateau across reopens: for any number of segments, transactions and reopens the page mark never
+exceeds the larger of where it started and `K·(n+2)+1`, `K` bounding every requested run of every segment
+(`requestsLeSegs`) and `n` the non-free count after each event of each segment (`Sys.nonFreeLeSegs`; a reopen
+keeps the mark and does not increase the non-free count) -/
+theorem plateau_across_reopens (s : Sys) (segs : List (List Ev)) (s' : Sys) (K n : Nat)
+    (hi : s.invB = true) (h : s.runSegs segs = some s')
+    (hK : requestsLeSegs K segs = true) (hn : s.nonFreeLeSegs n segs = true) :
+    s'.numPages ≤ max s.numPages (K * (n + 2) + 1) :=
+  plateau_with_reopens s segs s' K n hi h hK hn
+
+/-- non-vacuity: in the first segment a reader is held (and never ended: the process closes), so pages 3 and 4
+are still pending at close and the file has grown to 6 pages; after the reopen both are free, the writer of the
+second segment reuses page 3 and the file stays at 6 pages — whereas the same writer without the reopen (reader
+still held) extends the file to 7.  The two-segment history satisfies every hypothesis of
+`plateau_across_reopens` with `K = 1`, `n = 4` (`n = 3` would not do).  (`reopen_eq` first replaces
+`FL.pages` by `free ++ pendingPages`: `List.mergeSort` is defined by well-founded recursion and does not
+evaluate under `decide`.) -/
+example :
+    let s0 : Sys := { cur := { txId := 0, reach := [2, 3] }, shared := {}, readers := [], numPages := 4 }
+    let seg1 : List Ev := [.beginR, .commitW { freed := [3], requests := [1] },
+                           .commitW { freed := [4], requests := [1] }]
+    let seg2 : List Ev := [.commitW { freed := [5], requests := [1] }]
+    s0.invB = true ∧
+    ((s0.runEvs seg1).map (fun s => (s.shared.free, s.shared.pendingPages, s.numPages))) = some ([], [3, 4], 6) ∧
+    ((s0.runSegs [seg1]).map (fun s => (s.shared.free, s.shared.pendingPages, s.numPages))) = some ([3, 4], [], 6) ∧
+    ((s0.runSegs [seg1, seg2]).map (fun s => (s.cur.reach, s.shared.free, s.numPages))) = some ([2, 3], [4, 5], 6) ∧
+    ((s0.runEvs (seg1 ++ seg2)).map (·.numPages)) = some 7 ∧
+    requestsLeSegs 1 [seg1, seg2] = true ∧ s0.nonFreeLeSegs 4 [seg1, seg2] = true ∧
+    s0.nonFreeLeSegs 3 [seg1, seg2] = false ∧
+    6 ≤ max s0.numPages (1 * (4 + 2) + 1) := by
+  simp only [Sys.runSegs, Sys.nonFreeLeSegs, Sys.stepAll, reopen_eq]
+  decide
 
 end Jamm.Props.C10
